@@ -29,6 +29,10 @@ type rec struct {
 	Cat   string `json:"cat"` // "" = attribute absent
 	Count int    `json:"count"`
 	Tag   string `json:"tag"`
+	// audit extension: a second category attribute, and records that are already the result of a merge
+	// (merged_tag map instead of the scalar tag; Count must be the sum of the map)
+	Cat2   string         `json:"cat2,omitempty"`
+	Merged map[string]int `json:"merged,omitempty"`
 }
 
 type param struct {
@@ -41,6 +45,7 @@ type param struct {
 	Bound     int   `json:"bound"`
 	Choices   []int `json:"choices,omitempty"`
 	WithCateg bool  `json:"with_category"`
+	Categ2    bool  `json:"two_categories,omitempty"` // -c cat -c cat2 (needs WithCateg)
 }
 
 func source(p param) obiiter.IBioSequence {
@@ -53,7 +58,18 @@ func source(p param) obiiter.IBioSequence {
 		if r.Cat != "" {
 			s.SetAttribute("cat", r.Cat)
 		}
-		s.SetAttribute("tag", r.Tag)
+		if r.Cat2 != "" {
+			s.SetAttribute("cat2", r.Cat2)
+		}
+		if r.Merged != nil {
+			m := obiseq.StatsOnValues{}
+			for k, v := range r.Merged {
+				m[k] = v
+			}
+			s.SetAttribute("merged_tag", m)
+		} else {
+			s.SetAttribute("tag", r.Tag)
+		}
 		s.SetCount(r.Count)
 		sl = append(sl, s)
 	}
@@ -74,6 +90,9 @@ func body(p param) string {
 		obichunk.OptionBatchCount(p.Chunks), obichunk.OptionNAValue("NA"), obichunk.OptionStatOn("tag")}
 	if p.WithCateg {
 		opts = append(opts, obichunk.OptionSubCategory("cat"))
+		if p.Categ2 {
+			opts = append(opts, obichunk.OptionSubCategory("cat2"))
+		}
 	}
 	if p.NoSingle {
 		opts = append(opts, obichunk.OptionsNoSingleton())
@@ -91,6 +110,12 @@ func body(p param) string {
 			}
 			if !p.WithCateg {
 				cat = "-"
+			} else if p.Categ2 {
+				c2 := "NA"
+				if v, ok := s.GetAttribute("cat2"); ok {
+					c2 = fmt.Sprint(v)
+				}
+				cat += "/" + c2
 			}
 			merged := "absent"
 			if v, ok := s.GetAttribute("merged_tag"); ok {
@@ -128,6 +153,13 @@ func expected(p param) string {
 			if cat == "" {
 				cat = "NA"
 			}
+			if p.Categ2 {
+				if r.Cat2 == "" {
+					cat += "/NA"
+				} else {
+					cat += "/" + r.Cat2
+				}
+			}
 		}
 		k := r.Seq + "|" + cat
 		c := m[k]
@@ -136,6 +168,12 @@ func expected(p param) string {
 			m[k] = c
 		}
 		c.count += r.Count
+		if r.Merged != nil {
+			for t, n := range r.Merged {
+				c.tags[t] += n
+			}
+			continue
+		}
 		c.tags[r.Tag] += r.Count
 	}
 	var lines []string
@@ -216,7 +254,7 @@ func TestVerifC06A(t *testing.T) {
 		for _, c := range []string{"a", "b", ""} {
 			for _, n := range []int{1, 2} {
 				for _, tg := range []string{"x", "y"} {
-					types = append(types, rec{s, c, n, tg})
+					types = append(types, rec{Seq: s, Cat: c, Count: n, Tag: tg})
 				}
 			}
 		}
@@ -235,10 +273,42 @@ func TestVerifC06A(t *testing.T) {
 	}
 	// plus a fixed family of 3- and 4-record multisets forcing every kind of collision
 	ms = append(ms,
-		[]rec{{"acgt", "a", 1, "x"}, {"acgt", "a", 2, "y"}, {"acgt", "b", 1, "x"}},
-		[]rec{{"acgt", "a", 1, "x"}, {"acgt", "", 1, "x"}, {"ttgg", "", 1, "y"}, {"acgt", "a", 1, "x"}},
-		[]rec{{"acgt", "a", 1, "x"}, {"ttgg", "a", 1, "x"}, {"acgt", "a", 1, "y"}, {"ttgg", "a", 2, "y"}})
+		[]rec{{Seq: "acgt", Cat: "a", Count: 1, Tag: "x"}, {Seq: "acgt", Cat: "a", Count: 2, Tag: "y"}, {Seq: "acgt", Cat: "b", Count: 1, Tag: "x"}},
+		[]rec{{Seq: "acgt", Cat: "a", Count: 1, Tag: "x"}, {Seq: "acgt", Cat: "", Count: 1, Tag: "x"}, {Seq: "ttgg", Cat: "", Count: 1, Tag: "y"}, {Seq: "acgt", Cat: "a", Count: 1, Tag: "x"}},
+		[]rec{{Seq: "acgt", Cat: "a", Count: 1, Tag: "x"}, {Seq: "ttgg", Cat: "a", Count: 1, Tag: "x"}, {Seq: "acgt", Cat: "a", Count: 1, Tag: "y"}, {Seq: "ttgg", Cat: "a", Count: 2, Tag: "y"}})
 	var jobs []param
+	// audit extension (these jobs come first: a run cut by its deadline has done them): two category
+	// levels (the recursion of IUniqueSequence's sub-classification goes one level deeper, every level
+	// with its own goroutine and classifier), already merged input records, and the fixed collision
+	// families with 1 and 3 chunks
+	mg := func(seq, cat string, m map[string]int) rec {
+		n := 0
+		for _, v := range m {
+			n += v
+		}
+		return rec{Seq: seq, Cat: cat, Count: n, Merged: m}
+	}
+	extra := [][]rec{
+		{{Seq: "acgt", Cat: "a", Cat2: "p", Count: 1, Tag: "x"}, {Seq: "acgt", Cat: "a", Cat2: "q", Count: 1, Tag: "x"}, {Seq: "acgt", Cat: "a", Cat2: "p", Count: 2, Tag: "y"}},
+		{{Seq: "acgt", Cat: "a", Cat2: "p", Count: 1, Tag: "x"}, {Seq: "acgt", Cat2: "p", Count: 1, Tag: "x"}, {Seq: "acgt", Cat: "a", Count: 1, Tag: "y"}, {Seq: "acgt", Cat: "a", Cat2: "p", Count: 1, Tag: "x"}},
+		{{Seq: "acgt", Cat: "a", Count: 1, Tag: "x"}, mg("acgt", "a", map[string]int{"x": 1, "y": 2}), mg("ttgg", "a", map[string]int{"x": 2})},
+		{mg("acgt", "a", map[string]int{"x": 1, "y": 1}), {Seq: "acgt", Cat: "a", Cat2: "p", Count: 1, Tag: "y"}, {Seq: "acgt", Cat: "b", Cat2: "p", Count: 1, Tag: "y"}, mg("acgt", "a", map[string]int{"y": 1})},
+	}
+	for _, m := range extra {
+		for _, w := range []int{2, 3} {
+			if w == 3 && !verifkit.Thorough() {
+				continue
+			}
+			for pol := 0; pol <= 1; pol++ {
+				jobs = append(jobs, param{Recs: m, Workers: w, Chunks: 2, Batch: 1 + len(m)/2, NoSingle: len(m)%2 == 0, Policy: pol, Bound: 1, WithCateg: true, Categ2: true})
+			}
+		}
+	}
+	for _, m := range ms[len(ms)-3:] {
+		for _, ch := range []int{1, 3} {
+			jobs = append(jobs, param{Recs: m, Workers: 2, Chunks: ch, Batch: 1, Policy: ch / 2, Bound: 1, WithCateg: true})
+		}
+	}
 	for _, m := range ms {
 		for _, w := range []int{2, 3} {
 			if w == 3 && !verifkit.Thorough() {
@@ -252,7 +322,8 @@ func TestVerifC06A(t *testing.T) {
 			}
 		}
 	}
-	r.Bound("multisets", len(ms))
+	r.Bound("extra_scenarios", "4 fixed multisets with two category attributes and/or already merged records (merged_tag maps) x policies; the 3 fixed collision families with chunk counts 1 and 3, batch size 1")
+	r.Bound("multisets", len(ms)+len(extra))
 	r.Bound("jobs", len(jobs))
 	r.Bound("exploration", "delay bound 1 from two default schedulers, happens-before state caching, L2 conflict sites to fixpoint")
 	for k, p := range jobs {
